@@ -68,7 +68,7 @@ func shrinkCase(cs caseSpec, out *outcome, budget time.Duration, maxSeconds int)
 		lists := func(c *caseSpec) []*[][]string {
 			ls := []*[][]string{&c.Pre, &c.Own}
 			for i := range c.Steps {
-				if c.Steps[i].Kind == stSplit || c.Steps[i].Kind == stShrinkBacklog {
+				if c.Steps[i].Kind == stSplit || c.Steps[i].Kind == stShrinkBacklog || c.Steps[i].Kind == stRewriteShrink {
 					continue // the two lists of a split must keep equal sizes
 				}
 				ls = append(ls, &c.Steps[i].Cmds)
